@@ -89,4 +89,40 @@ theorem closed_after_handler_iff_not_keep (noResponse keep : Bool) :
 example : (({ buf := [1,2,3,4,5,6,7,8], chunks := [[9,10],[11]] } : BR).discard 5).readMany [2, 2, 2, 2] = [6,7,8,9,10,11] := by
   decide
 
+/-! ### the hijack flags are per request -/
+
+/-- what a request is entitled to, from ITS OWN handler's calls only -/
+def ownOut (r : HjReq) : HjOut := ⟨r.hijack && !r.timedOut, r.setNoResp && r.hijack && !r.timedOut⟩
+
+theorem hjIter_fresh (r : HjReq) : hjIter {} r = ({}, ownOut r) := by
+  cases r with
+  | mk a b c => cases a <;> cases b <;> cases c <;> rfl
+
+/-- C17 (flags): on a connection carrying any sequence of requests, whether request k's response is suppressed and
+    whether the connection is hijacked after it depend on what ITS OWN handler asked for — a `HijackSetNoResponse(true)`
+    that was not followed by `Hijack`, or a hijack asked for by a handler that then timed out, changes nothing for
+    later requests -/
+theorem hijack_flags_are_per_request (rs : List HjReq) :
+    ∀ p ∈ (hjRun {} rs).zip rs, p.1 = ownOut p.2 := by
+  induction rs with
+  | nil => intro p hp; simp [hjRun] at hp
+  | cons r rest ih =>
+    intro p hp
+    simp only [hjRun, hjIter_fresh] at hp
+    by_cases hh : (ownOut r).hijacked = true
+    · simp only [hh, if_true, List.zip_cons_cons, List.zip_nil_left, List.mem_cons, List.not_mem_nil, or_false] at hp
+      rw [hp]
+    · simp only [hh, List.zip_cons_cons, List.mem_cons] at hp
+      rcases hp with rfl | hp
+      · rfl
+      · exact ih p (by simpa using hp)
+
+/-- a response is never suppressed for a request that did not hijack -/
+theorem no_suppression_without_hijack (r : HjReq) (h : r.hijack = false) : (ownOut r).suppressed = false := by
+  simp [ownOut, h]
+
+/-! non-vacuity: request 1 calls HijackSetNoResponse(true) and answers normally, request 2 hijacks: its response is written -/
+example : hjRun {} [⟨true, false, false⟩, ⟨false, true, false⟩] = [⟨false, false⟩, ⟨true, false⟩] := by decide
+example : hjRun {} [⟨true, true, true⟩, ⟨false, false, false⟩] = [⟨false, false⟩, ⟨false, false⟩] := by decide
+
 end Fh.Props.C17
